@@ -151,6 +151,27 @@ def check_tab(run: Run, prog: Program) -> None:
         run.check(ok, "C20.TAB", fn.qual, f"{vname}: validates against {sorted(tabs)}, opens {want_api}",
                   "a validator checks metrics against another category's table or opens another category's "
                   "API stream", node=fn.node, file=fn.file)
+        # a request is refused only for a metric that is absent from the category's table
+        table = next(k for k, v in TABLES.items() if v == cat)
+        vcfg = CFG(fn.node, fn.file)
+        vx = Expander(fn.node)
+        req_p = fn.params[2]
+        loop_vars = {n.ast.target.id for n in vcfg.nodes if n.kind == "for" and isinstance(n.ast, ast.For)
+                     and isinstance(n.ast.target, ast.Name) and vx.x(n.ast.iter) in (req_p, f"{req_p}.keys()")}
+        raises = [n.id for n in vcfg.nodes if n.kind == "stmt" and isinstance(n.ast, ast.Raise)]
+        ok = True
+        wit = None
+        if raises:
+            ok = False
+            for lv in sorted(loop_vars):
+                g_ok, wit, n_g = _guarded(vcfg, vx, raises, lv, table, want_present=False)
+                if g_ok and n_g >= 1:
+                    ok = True
+                    break
+        run.check(ok, "C20.TAB", fn.qual, f"{vname}: refuses only metrics missing from {table}",
+                  "a validator refuses a request for a metric its category supports (or refuses unconditionally): "
+                  "the stream task of that component fails on every start and none of its subscriptions is served",
+                  node=fn.node, file=fn.file, path=vcfg.describe_path(wit))
     cr = prog.func(f"{API}._check_requested_component_and_metrics")
     run.analysed(cr.qual)
     d2: dict[str, set[str]] = {}
@@ -180,6 +201,11 @@ class Stream:
             raise AnalysisError(f"{hs.qual}: message loop not found ({len(loops)} `async for` loops)")
         self.loop = loops[0]
         self.msg = self.loop.target.id
+        self.cfg = CFG(hs.node, hs.file)
+        heads = [n.id for n in self.cfg.nodes if n.kind == "for" and n.ast is self.loop]
+        if len(heads) != 1:
+            raise AnalysisError(f"{hs.qual}: message loop not found in the CFG")
+        self.head = heads[0]
         # the fan-out function: the nested closure or private method called with the message
         nested = {n.name: n for n in ast.walk(hs.node) if isinstance(n, (ast.FunctionDef, ast.AsyncFunctionDef)) and n is not hs.node}
         self.fan_calls: list[tuple[ast.Call, FuncInfo, dict[str, ast.AST]]] = []
@@ -379,16 +405,32 @@ def check_fan(run: Run, prog: Program, st: Stream) -> None:
             ok = False  # an alias taken earlier may be stale once the per-component dict can be replaced
     run.check(ok, "C20.FAN", hs.qual, "stream_senders built from this component's subscriptions",
               "the fan-out does not use this component's current subscriptions", node=hs.node, file=hs.file)
+    # ... and they are built whenever the component has subscriptions: the message loop cannot be
+    # reached without the build except over the "no subscriptions" side of a membership test
+    cfg = st.cfg
+    build = nodes_with_call(cfg, lambda c: _is_self_call(c, "_get_metric_senders"))
+    skip_edges: set[tuple[int, str]] = set()
+    for t in cfg.nodes:
+        if t.kind == "test" and t.ast is not None:
+            pol = presence(st.x.expand(t.ast), st.comp_p, SUBS)
+            if pol is not None:
+                skip_edges.add((t.id, "false" if pol == 1 else "true"))  # the edge taken when there are no subscriptions
+    wit = cfg.path(cfg.entry, [st.head], avoid=build,
+                   edge_ok=lambda a, b, lab: _normal(a, b, lab) and (a, lab) not in skip_edges) if build else None
+    run.check(bool(build) and wit is None, "C20.FAN", hs.qual, "subscriptions present -> senders built before the message loop",
+              "the stream task can enter its message loop without senders although the component has subscriptions: "
+              "every message is consumed and delivered to nobody", node=hs.node, file=hs.file, path=cfg.describe_path(wit))
 
 
 # ======================================================================================== C20.ATOM
+def _normal(_a: int, _b: int, lab: str) -> bool:
+    return not lab.startswith("exc:")
+
+
 def check_atom(run: Run, prog: Program, st: Stream) -> None:
     hs = st.hs
-    cfg = CFG(hs.node, hs.file)
-    heads = [n for n in cfg.nodes if n.kind == "for" and n.ast is st.loop]
-    if len(heads) != 1:
-        raise AnalysisError(f"{hs.qual}: message loop not found in the CFG")
-    h = heads[0]
+    cfg = st.cfg
+    h = cfg.nodes[st.head]
     dv = st.msg
     fan_txt = {st.x.x(c) for c, _f, _b in st.fan_calls}
 
@@ -417,6 +459,44 @@ def check_atom(run: Run, prog: Program, st: Stream) -> None:
               "the fan-out is owned by the cancellable stream task (awaited inline or in its task group): "
               "cancelling the stream task on a new subscription would drop a message in flight",
               node=hs.node, file=hs.file)
+    # when the API stream ends, the fan-out tasks still in flight are awaited before any channel is closed
+    spawn_txt = {st.x.x(c) for c in spawns}
+    pools = {c.func.value.id for c in calls_where(hs.node, lambda c: isinstance(c.func, ast.Attribute)  # type: ignore[union-attr]
+             and c.func.attr in ("add", "append") and isinstance(c.func.value, ast.Name) and len(c.args) == 1
+             and st.x.x(c.args[0]) in spawn_txt, nested=False)}
+
+    def closes(c: ast.Call) -> bool:
+        if isinstance(c.func, ast.Attribute) and c.func.attr == "close_and_remove":
+            return True
+        if _is_self_call(c) and hs.cls is not None:
+            m = prog.resolve_method(hs.cls, c.func.attr)  # type: ignore[union-attr]
+            return m is not None and any(isinstance(n, ast.Attribute) and n.attr == "close_and_remove" for n in ast.walk(m.node))
+        return False
+
+    def joins(c: ast.Call) -> bool:
+        f = u(c.func)
+        if f == "asyncio.gather":
+            return any(isinstance(a, ast.Starred) and isinstance(a.value, ast.Name) and a.value.id in pools for a in c.args)
+        if f == "asyncio.wait":
+            return bool(c.args) and isinstance(c.args[0], ast.Name) and c.args[0].id in pools and not any(
+                k.arg in ("timeout", "return_when") for k in c.keywords) and len(c.args) == 1
+        return False
+
+    def any_call(nid: int, pred: Any) -> bool:
+        n = cfg.nodes[nid]
+        return n.ast is not None and any(isinstance(c, ast.Call) and pred(c) for part in own_parts(n) for c in ast.walk(part))
+
+    close_nodes = [n.id for n in cfg.nodes if any_call(n.id, closes)]
+    join_nodes = [n.id for n in cfg.nodes if cfg.is_await(n.id) and any_call(n.id, joins)]
+    after = [m for m, lab in cfg.succ[h.id] if lab == "done"]
+    wit = None
+    for d in after:
+        if close_nodes and d not in join_nodes:
+            wit = wit or cfg.path(d, close_nodes, avoid=join_nodes, edge_ok=_normal)
+    run.check(wit is None, "C20.ATOM", hs.qual, "fan-out tasks in flight are awaited before the channels are closed",
+              "when the API stream ends, the channels are closed while fan-out tasks of the last messages may not "
+              "have sent yet: those messages are lost for every stream", node=hs.node, file=hs.file,
+              path=cfg.describe_path(wit))
     us = prog.func(f"{API}._update_streams")
     run.analysed(us.qual)
     node = inline_helpers(prog, us)
@@ -518,9 +598,11 @@ def check_once(run: Run, prog: Program, st: Stream) -> None:
         v = prog.func(f"{API}.{vname}")
         reaches = vname in writers_of_recv or any(
             _is_self_call(c) and c.func.attr in writers_of_recv for c in ast.walk(v.node) if isinstance(c, ast.Call))  # type: ignore[union-attr]
-        if not reaches:
-            raise AnalysisError(f"C20.ONCE: {vname} creates no API receiver (anchor moved?)")
-        run.ok("C20.ONCE", f"{v.qual} :: registers the receiver it opens (create-once checked at the write)")
+        run.check(reaches, "C20.ONCE", v.qual, f"{vname}: registers the receiver it opens",
+                  "the validator does not register an API receiver for the component: the stream task finds "
+                  "none and fails on every start, so no message of that component is ever delivered",
+                  node=v.node, file=v.file,
+                  instance=f"{v.qual} :: registers the receiver it opens (create-once checked at the write)")
     # stream tasks: registered only by _update_streams (or a helper spliced into it)
     us = prog.func(f"{API}._update_streams")
     us_node = inline_helpers(prog, us)
@@ -592,6 +674,23 @@ def check_once(run: Run, prog: Program, st: Stream) -> None:
     run.check(ok, "C20.ONCE", cr.qual, "existing receiver -> nothing to (re)create",
               "validation re-runs receiver creation for a component that already has one", node=cr.node, file=cr.file)
     hs = st.hs
+    hcfg = st.cfg
+    build = nodes_with_call(hcfg, lambda c: _is_self_call(c, "_get_metric_senders"))
+
+    def ensures(c: ast.Call) -> bool:
+        if not _is_self_call(c, "_check_requested_component_and_metrics"):
+            return False
+        b = bind_call(c, cr.params[1:])
+        return b is not None and set(b) == set(cr.params[1:]) and st.x.x(b[cr.params[1]]) == st.comp_p \
+            and st.x.x(b[cr.params[2]]) == st.cat_p and st.x.x(b[cr.params[3]]) == f"{SUBS}[{st.comp_p}]"
+
+    ens = [n for n in nodes_with_call(hcfg, ensures) if hcfg.is_await(n)]
+    wit = hcfg.path(hcfg.entry, build, avoid=ens, edge_ok=_normal) if build else None
+    run.check(bool(ens) and bool(build) and wit is None, "C20.ONCE", hs.qual,
+              "receiver ensured (requests validated, receiver opened if absent) before the senders are built",
+              "a stream task with subscriptions starts without ensuring the component's API receiver: the first "
+              "task of a component finds no receiver and fails on every restart", node=hs.node, file=hs.file,
+              path=hcfg.describe_path(wit))
     ok = st.x.x(st.loop.iter) == f"{RECV}[{st.comp_p}]"
     run.check(ok, "C20.ONCE", hs.qual, "the (re)started stream task continues the cached receiver",
               "a restarted stream task does not continue the component's cached API receiver", node=hs.node, file=hs.file)
@@ -805,6 +904,17 @@ def check_dedup(run: Run, prog: Program) -> None:
               "an identical request is not ignored, or the scan-and-append is interruptible (an await between "
               "scan and append lets two identical requests both be appended)", node=am.node, file=am.file,
               path=cfg.describe_path(wit))
+    ok = len(scans) == 1
+    if ok:
+        sc = scans[0]
+        ensure = [n.id for n in cfg.nodes if n.ast is not None and any(
+            isinstance(c, ast.Call) and isinstance(c.func, ast.Attribute) and c.func.attr == "setdefault"
+            and cpath(x.expand(c)) == sc.path for part in own_parts(n) for c in [part, *walk_own(part)])]
+        ok = bool(ensure) and cfg.path(cfg.entry, [sc.gate], avoid=ensure) is None
+    run.check(ok, "C20.DEDUP", am.qual, "the request list of (component, metric) is created in place before it is scanned",
+              "the per-component / per-metric request list is not ensured before the duplicate scan: the first "
+              "request for a component or metric fails (KeyError) and its stream never starts",
+              node=am.node, file=am.file)
     sub = _spliced(prog, prog.func("microgrid._resampling:ComponentMetricsResamplingActor._subscribe"))
     run.analysed(sub.qual)
     cfg = CFG(sub.node, sub.file)
@@ -838,6 +948,28 @@ def check_dedup(run: Run, prog: Program) -> None:
         ok = g_ok and n_g == 1
     run.check(ok, "C20.DEDUP", gc.qual, "create only when the key is absent",
               "get_or_create can replace an existing channel (its subscribers would stop receiving)",
+              node=gc.node, file=gc.file)
+    # an existing channel of the requested type is handed out (never refused, never another object):
+    # every raising path knows the types differ, every returning path returns the stored channel
+    mt = gc.params[1]
+    same = frozenset({f"self._channels[{kp}].message_type", mt})
+    stored = f"self._channels[{kp}].channel"
+    ok, why = True, ""
+    for p in enum_paths(gc.node):
+        differ = any((c == ("is", same) and not truth) or (c == ("isnot", same) and truth) for c, truth in p.facts)
+        if p.kind == "raise" and not differ:
+            ok, why = False, "a path raises although the stored message type is the requested one"
+        elif p.kind == "fall":
+            ok, why = False, "a path returns nothing"
+        elif p.kind == "return":
+            v = p.value
+            if isinstance(v, ast.Call) and u(v.func) in ("typing.cast", "cast") and len(v.args) == 2:
+                v = v.args[1]
+            if v is None or u(v) != stored:
+                ok, why = False, f"a path returns `{u(v)}` instead of `{stored}`"
+    run.check(ok, "C20.DEDUP", gc.qual, "an existing channel of the requested type is returned",
+              "get_or_create refuses or replaces the channel of an existing key although the message type matches: "
+              f"every later sender/receiver of that stream (each stream-task restart) fails ({why})",
               node=gc.node, file=gc.file)
     ds = prog.func("microgrid._data_sourcing.data_sourcing:DataSourcingActor._run")
     run.analysed(ds.qual)
@@ -881,6 +1013,25 @@ CONTROLS = [
      "        self.comp_data_tasks[comp_id] = asyncio.create_task(\n            run_forever(lambda: self._handle_data_stream(comp_id, category))\n        )",
      "        self.comp_data_tasks[comp_id] = asyncio.create_task(\n            run_forever(lambda: self._handle_data_stream(comp_id, category))\n        )\n        self.comp_data_tasks[comp_id].add_done_callback(lambda _: self.comp_data_tasks.pop(comp_id, None))",
      "C20.ONCE"),
+    ("existing channel of the same type refused", "_internal._channels",
+     "        if entry.message_type is not message_type:\n", "        if entry.message_type is message_type:\n", "C20.DEDUP"),
+    ("validator refuses the supported metrics", SRC,
+     "            if metric not in _MeterDataMethods:\n", "            if metric in _MeterDataMethods:\n", "C20.TAB"),
+    ("senders built only when there are no subscriptions", SRC,
+     "            if comp_id in self._req_streaming_metrics:\n                await self._check_requested_component_and_metrics(",
+     "            if comp_id not in self._req_streaming_metrics:\n                await self._check_requested_component_and_metrics(",
+     "C20.FAN"),
+    ("stream task does not ensure the receiver", SRC,
+     "                await self._check_requested_component_and_metrics(\n                    comp_id, category, self._req_streaming_metrics[comp_id]\n                )\n",
+     "", "C20.ONCE"),
+    ("channels closed without awaiting the fan-out tasks in flight", SRC,
+     "            await asyncio.gather(*sending_tasks)\n", "", "C20.ATOM"),
+    ("request list not created before the scan", SRC,
+     "        self._req_streaming_metrics.setdefault(comp_id, {}).setdefault(\n            request.metric_id, []\n        )\n",
+     "", "C20.DEDUP"),
+    ("validator registers no receiver", SRC,
+     "            self.comp_data_receivers[comp_id] = (\n                await connection_manager.get().api_client.ev_charger_data(comp_id)\n            )",
+     "            await connection_manager.get().api_client.ev_charger_data(comp_id)", "C20.ONCE"),
 ]
 
 
@@ -901,10 +1052,10 @@ def check(run: Run, prog: Program, tier: str) -> str:
     run.rule("C20.DEDUP", "unknown ids change nothing; scan-then-append without await; idempotent subscribe; get_or_create creates only when absent")
     run_rules(run, prog)
     run.floor("C20.TAB", 55)
-    run.floor("C20.FAN", 4)
-    run.floor("C20.ATOM", 3)
-    run.floor("C20.ONCE", 8)
-    run.floor("C20.DEDUP", 5)
+    run.floor("C20.FAN", 5)
+    run.floor("C20.ATOM", 4)
+    run.floor("C20.ONCE", 9)
+    run.floor("C20.DEDUP", 7)
     from ..engine.controls import run_controls
 
     run_controls(run, CONTROLS, run_rules, tier)
